@@ -1,16 +1,30 @@
-"""./check <property|selftest|mutants> [--tier quick|thorough] [--replay path]"""
+"""./check <Cxx> [--tier quick|thorough] [--replay path]
+
+Driver modules live in harness/ and declare PROPS = ("C10",) (the properties they decide) and
+run(tier, pid) -> exit code (0 held, 1 violation).  Exit 2 = machinery failure, never a VIOLATION."""
 
 import argparse
+import glob
 import importlib
 import os
+import re
 import sys
 import traceback
 
 from . import tlc
 
-MODULES = {
-    "C10": "c10",
-}
+HERE = os.path.dirname(os.path.abspath(__file__))
+
+
+def discover():
+    table = {}
+    for f in sorted(glob.glob(os.path.join(HERE, "*.py"))):
+        src = open(f).read()
+        m = re.search(r"^PROPS\s*=\s*\(([^)]*)\)", src, re.M)
+        if m:
+            for pid in re.findall(r'"(C\d+)"', m.group(1)):
+                table[pid] = os.path.basename(f)[:-3]
+    return table
 
 
 def main(argv=None):
@@ -21,14 +35,18 @@ def main(argv=None):
     a = ap.parse_args(argv)
     tier = a.tier if a.tier in ("quick", "thorough") else "quick"
     pid = a.prop.upper()
-    if pid not in MODULES:
-        print("MACHINERY: unknown property %s" % pid)
+    table = discover()
+    if pid not in table:
+        print("MACHINERY: no driver declares property %s" % pid)
         return 2
     try:
-        mod = importlib.import_module("harness." + MODULES[pid])
+        mod = importlib.import_module("harness." + table[pid])
         if a.replay:
-            return mod.replay_file(a.replay, pid) if hasattr(mod, "replay_file") else 2
-        return mod.run(tier) if MODULES[pid].startswith("c") and not hasattr(mod, "PROPS") else mod.run(tier, pid)
+            if not hasattr(mod, "replay_file"):
+                print("MACHINERY: driver %s has no replay_file()" % table[pid])
+                return 2
+            return mod.replay_file(a.replay, pid)
+        return mod.run(tier, pid)
     except tlc.MachineryError as ex:
         print("MACHINERY: %s" % ex)
         return 2
